@@ -176,6 +176,12 @@ def token_mutations(rng):
                ".XYZ 1", "NOP NOP", "NOP ; ok", "STOP R0", "RETI;x", "EI\tDI", "PUSHF R0", "MOV R0 , R1", "MOV R0 ,R1", "MOV ( R0), R1", "MOV (R0 ), R1", "LD pc, 1", "LD Pc, 1",
                "LD R00, 1", "LD R, 1", "LD r3, 1", "lbl: NOP", "MOV (lbl), lbl", "pcount:", "Pc1:", "pC:", "pc:", "rx:", "r:", "Result:", "spam:", "Sp:", "sP0:", ".EQU pc 7", ".EQU pcx 7", ".EQU rr 1",
                ".EQU Spx 2", "JMP pcount", "LD R0, pcount", "MOV (rx), R0", "LD R0, sp", "CALL r9", "LD R0, R4", "LD R0, R10", "LD R0, (R4)", "LD R0, (pc)", "LD R0, (Pc+)", "MOV lbl, R0", "BITS (foo), FOO", "CMP (PC+), (r3)", "Rx:", "PCx:", "SPam:", "mov:", "NOP:"]
+    # every hex / binary spelling that begins with a letter digit (a-f, A-F), with and without leading zeros, in every numeric position
+    for d in "abcdefABCDEF":
+        for n in ["0x" + d, "0x0" + d, "0x" + d + "0", "0x" + d + d, "0x" + d + "5", "0x00" + d + "b", "0x" + d.swapcase() + d]:
+            probes += ["LD R0, " + n, ".DB " + n + ", " + n, ".ORG " + n, "MOV (" + n + "), R1", ".BYTE " + n, ".EQU bar " + n, "LDSP " + n, "ST (" + n + "), R1", ".DW " + n + "0" + d]
+    for n in ["0b1", "0b01", "0b10", "0b0", "0b00000001", "0b10110101", "0b1011", "08", "09", "010", "0100", "0010", "00"]:
+        probes += ["LD R0, " + n, ".DB " + n, ".ORG " + n, ".BYTE " + n, ".EQU bar " + n, ".DW " + n, "*PROGRAMSIZE " + n, "*STACKSIZE " + n]
     out = []
     for p in probes:
         out.append("#! mrasm\n" + "\n".join(base + [p]) + "\n")
@@ -225,6 +231,47 @@ def edge_texts():
             if n >= 4 and "x" not in c:
                 continue
             out.append("#! mrasm ;%s\nl: ;%s\n NOP ;%s\n;%s\n" % (c, c, c, c))
+    return out
+
+
+def long_texts(rng, tier="quick"):
+    """texts that are long in one dimension: many lines, one very long comment / blank run / operand list / label, many empty lines"""
+    def prog(n):
+        pool = [" INC R0 ; comment number %d with some more words in it", " MOV (R1+), ((R2+))", "\tLD R0, 0x%02X", "", " ; just a comment %d", " ADD R0, R1",
+                "\tST (0xFE), R2\t; %d", " JR l3", ".DB %d", " CLR R1;%d"]
+        lines = []
+        for i in range(n):
+            p = rng.choice(pool)
+            lines.append(p % (i % 256) if "%" in p else p)
+        lines.insert(rng.randrange(len(lines)), "l3:")
+        return "#! mrasm\n" + "\n".join(lines) + "\n"
+    sizes = [700, 1500, 2500] if tier == "quick" else [700, 1500, 2500, 4000, 6000]
+    out = [prog(n) for n in sizes]
+    out.append("#! mrasm\r\n" + "\r\n".join(" NOP" for _ in range(3000)))
+    for n in ([5000, 60000, 200000] if tier == "quick" else [5000, 60000, 200000, 1000000]):
+        out.append("#! mrasm\n NOP ; " + "x" * n + "\n")
+        out.append("#! mrasm ; " + "ä€" * (n // 2) + "\nNOP")
+        out.append("#! mrasm\n" + " " * n + "NOP" + "\t" * (n // 10) + ";c\n")
+    out.append("#! mrasm\n" + "\n" * 8000 + "STOP\n" + "\n" * 100)
+    out.append("#! mrasm\n.DB " + ", ".join(str(i % 256) for i in range(400)) + "\n")
+    out.append("#! mrasm\n.DW " + ",".join("0x%04X" % (i * 17 % 65536) for i in range(400)) + " ; tail\n")
+    lab = "L" + "abcdefghij" * 800
+    out.append("#! mrasm\n%s:\n JMP %s\n" % (lab, lab.upper()))
+    out.append("#! mrasm\n.EQU %s 5\n LD R0, %s\n" % (lab, lab))
+    out.append("#! mrasm\n LD R0, " + "0" * 5000 + "12\n .DW 0x" + "0" * 5000 + "FFFF\n .DB 0b" + "0" * 3000 + "1\n")
+    return out
+
+
+# characters that look like blanks / are invisible but are NOT blanks of the language
+ODD_SPACES = ["\ufeff", "\u00a0", "\u200b", "\ufffe", "\u2028", "\u2029", "\x0b", "\x0c", "\u0085", "\u3000", "\u2003", "\u00ad", "\x1a", "\x00", "\x7f", "\u202f"]
+
+
+def odd_space_texts():
+    out = []
+    for c in ODD_SPACES:
+        out += [c + "#! mrasm\nNOP\n", "#! mrasm" + c + "\nNOP\n", "#! mrasm\n" + c + "NOP\n", "#! mrasm\nNOP" + c + "\n", "#! mrasm\nNOP\n" + c,
+                "#! mrasm\nINC" + c + "R0\n", "#! mrasm\nMOV R0," + c + "R1\n", "#! mrasm\n" + c + "\nNOP\n", "#!" + c + "mrasm\nNOP\n", "#! mrasm\nl" + c + ":\n",
+                "#! mrasm\nNOP ;" + c + "x" + c + "\n", "#! mrasm ;" + c + "\nl:\n", c, c + "\n#! mrasm\nNOP\n"]
     return out
 
 
